@@ -126,6 +126,10 @@ class ArrTr:
             raise Unsupported("unknown name %s" % e.id)
         if isinstance(e, ast.Attribute) and _dotted(e) in ("np.pi", "math.pi"):
             return V("R", "PI", False)
+        if isinstance(e, ast.Attribute) and _dotted(e) in [a for a, _ in self.arrays]:
+            if mode == "req":
+                raise Unsupported("unsliced array %s inside a sum over adjacent elements" % _dotted(e))
+            return self.leaf([a for a, _ in self.arrays].index(_dotted(e)), mode)
         if isinstance(e, ast.Attribute) and e.attr in self.identity_attrs:
             return self.ex(e.value, mode)
         if isinstance(e, ast.Subscript):
@@ -215,6 +219,18 @@ class ArrTr:
                 raise Unsupported("two different selections along %s" % self.axis_name)
             self.restrict = len(labs)
             return self.ex(e.func.value, mode)
+        if isinstance(e.func, ast.Attribute) and e.func.attr == "mean" and not e.keywords and len(e.args) == 1 \
+                and isinstance(e.args[0], ast.Constant) and e.args[0].value == 0 and not (_dotted(e.func) or "").startswith("np."):
+            # X.mean(0): the mean along the first axis (the list); one generic column of an N x 3 array is read
+            if mode is not None:
+                raise Unsupported("nested reduction")
+            v = self.ex(e.func.value, None)
+            if not v.arr or v.ty == "C":
+                raise Unsupported(".mean(0) of something that is not a real array")
+            self.nsum += 1
+            nm = "sum%d" % self.nsum
+            self.lets.append("let %s := asum (fun (l0 : Z) (c : @E@) => %s) 0 cs in\n  " % (nm, toR(v).code))
+            return V("R", "(%s / %s)" % (nm, self.LEN), False)
         is_sum = isinstance(e.func, ast.Attribute) and e.func.attr == "sum" and not e.args \
             and not (_dotted(e.func) or "").startswith("np.")
         if is_sum and len(e.keywords) == 1 and e.keywords[0].arg == "dim" and isinstance(e.keywords[0].value, ast.Name) \
@@ -508,7 +524,7 @@ def translate_mixed(repo, relpath, qualname, name, params, arrays, source_method
     return "Definition %s %s (cs : list %s) : %s :=\n  %s.\n" % (name, sig, elem_type(arrays), rty, body)
 
 
-def translate_elementwise(repo, relpath, qualname, name, arrays, scalars, outputs, params, **opts):
+def translate_elementwise(repo, relpath, qualname, name, arrays, scalars, outputs, params, only_outputs=False, **opts):
     """The elementwise definitions of the arrays [outputs] inside [qualname], as ONE function of the generic index and element:
     `name <scalars> (l0 : Z) (c : E) : tuple of the outputs' generic elements` (complex outputs as pairs).  [scalars]: the
     function's scalar parameters [(name, 'R' | 'C')] (a complex one becomes name_re, name_im); the statements after the last
@@ -535,7 +551,13 @@ def translate_elementwise(repo, relpath, qualname, name, arrays, scalars, output
                 and isinstance(st.targets[0], ast.Name) and st.targets[0].id in outputs] or [-1])
     if last < 0:
         raise Unsupported("outputs %r are not assigned in %s" % (outputs, qualname))
-    for st in fn.body[:last + 1]:
+    stmts = fn.body[:last + 1]
+    if only_outputs:
+        # only the assignments of the outputs themselves are read (what precedes them are guards and set-up that the outputs'
+        # right-hand sides do not mention except through the declared arrays and scalars)
+        stmts = [st for st in stmts if isinstance(st, ast.Assign) and len(st.targets) == 1 and isinstance(st.targets[0], ast.Name)
+                 and st.targets[0].id in outputs]
+    for st in stmts:
         if isinstance(st, ast.Expr) and isinstance(st.value, ast.Constant) and isinstance(st.value.value, str):
             continue
         if tr.opaque_assign(st):
@@ -550,8 +572,9 @@ def translate_elementwise(repo, relpath, qualname, name, arrays, scalars, output
             raise Unsupported("output %s" % o)
         v = tr.ex(tr.env[o][1], None)
         outs.append("(%s, %s)" % v.code if v.ty == "C" else toR(v).code)
-    if tr.lets:
-        raise Unsupported("reduction inside an elementwise definition")
     E = elem_type(arrays)
     body = "(" + ", ".join(outs) + ")" if len(outs) > 1 else outs[0]
+    if tr.lets:
+        # reductions over the whole list (a mean) are scalars of the enclosing function: the list becomes a parameter
+        return ("Definition %s %s (cs : list %s) (l0 : Z) (c : %s) :=\n  %s%s.\n" % (name, " ".join(sig), E, E, "".join(tr.lets), body)).replace("@E@", E)
     return "Definition %s %s (l0 : Z) (c : %s) :=\n  %s.\n" % (name, " ".join(sig), E, body.replace("@E@", E))
